@@ -182,6 +182,16 @@ def stores_to_field(body, field, cleanup=False):
         names = [p["n"] for p in pl["p"] if isinstance(p, dict) and "f" in p]
         if names and names[-1] == field:
             out.append((cs.bb, len(body.blocks[cs.bb]["st"]), {"s": "assign", "pl": pl, "rv": {"r": "use", "o": cs.args[1]}, "sp": cs.term.get("sp"), "via": "mem::replace"}))
+    # `P.field.replace(v)` / `P.field.insert(v)` on an Option field store Some(v) into it
+    for cs in body.calls():
+        if cs.f is None or cs.f.get("path") not in ("std::option::Option::<T>::replace", "std::option::Option::<T>::insert") or len(cs.args) != 2 or (not cleanup and body.is_cleanup(cs.bb)):
+            continue
+        pl = _borrowed_place(body, cs.args[0])
+        if pl is None:
+            continue
+        names = [p["n"] for p in pl["p"] if isinstance(p, dict) and "f" in p]
+        if names and names[-1] == field:
+            out.append((cs.bb, len(body.blocks[cs.bb]["st"]), {"s": "assign", "pl": pl, "rv": {"r": "agg", "kind": "adt", "adt": "std::option::Option", "variant": "Some", "variant_idx": 1, "field_names": ["0"], "fields": [cs.args[1]]}, "sp": cs.term.get("sp"), "via": "Option::" + cs.name}))
     return out
 
 
@@ -314,7 +324,7 @@ def switches_on_expr(body, pred):
     for i, b in enumerate(body.blocks):
         if b["term"]["t"] != "switch" or body.is_cleanup(i):
             continue
-        e = body.expr(b["term"]["on"])
+        e = body.expr(b["term"]["on"], at=i)
         while e[0] == "not":
             e = e[1]
         if pred(e):
@@ -327,7 +337,7 @@ def switch_reads(body, sw):
     discriminant, or the *old* value handed back by mem::replace / mem::take / Cell::replace on it
     (`if mem::replace(&mut x.flag, false)` tests x.flag). Returns (kind, set of (root, path)) with
     kind 'place' | 'discr' | None"""
-    e = body.expr(body.blocks[sw]["term"]["on"])
+    e = body.expr(body.blocks[sw]["term"]["on"], at=sw)
     while e[0] == "not":
         e = e[1]
     if e[0] in ("place", "discr"):
@@ -358,7 +368,7 @@ def call_result_switches(body, call_bb, first_only=True):
         t = b["term"]
         if t["t"] != "switch" or body.is_cleanup(i):
             continue
-        e = body.expr(t["on"])
+        e = body.expr(t["on"], at=i)
         while e[0] == "not":
             e = e[1]
         if e == ("call", call_bb):
@@ -455,7 +465,7 @@ def option_split(body, call_bb):
         t = b["term"]
         if t["t"] != "switch" or body.is_cleanup(i):
             continue
-        e = body.expr(t["on"])
+        e = body.expr(t["on"], at=i)
         if e[0] != "discr":
             continue
         for root, path in body.resolve(e[2]):
